@@ -139,6 +139,22 @@ theorem handleSubStr_no_panic (c : Ctx) (cmd : List Bytes) (s : State) (w : Stri
     ((handleSubStr c cmd).run c s).2 ≠ .panic w :=
   readsNoPanic_run c _ s (handleSubStr_readsNoPanic c cmd) w
 
+/-- TYPE has no panicking path left: a value that reads as nil is answered like a missing key -/
+theorem handleType_readsNoPanic (c : Ctx) (cmd : List Bytes) : (handleType c cmd).ReadsNoPanic := by
+  unfold handleType
+  split
+  · intro ex
+    dsimp only
+    split <;> try trivial
+    intro vs
+    dsimp only
+    split <;> trivial
+  · trivial
+
+theorem handleType_no_panic (c : Ctx) (cmd : List Bytes) (s : State) (w : String) :
+    ((handleType c cmd).run c s).2 ≠ .panic w :=
+  readsNoPanic_run c _ s (handleType_readsNoPanic c cmd) w
+
 theorem handleSelect_wf (c : Ctx) (cmd : List Bytes) : (handleSelect c cmd).AllRet Res.WFok := by
   apply allRet_full; unfold handleSelect; wf
 theorem handleSwapDB_wf (c : Ctx) (cmd : List Bytes) : (handleSwapDB c cmd).AllRet Res.WFok := by
